@@ -28,13 +28,13 @@ End LexTree.
 
 (* well-shaped trees: every arm index is in range and every component list is non-empty
    (true of every tree that has a meaning: odesugar t = Some v) *)
-Fixpoint tree_ok (t : sterm) : bool :=
+Fixpoint shape_ok (t : sterm) : bool :=
   match t with
   | SAtom arm _ => Nat.ltb arm (length parse_atom_arms)
-  | SSet _ _ _ items _ => match items with [] => false | _ => true end && forallb tree_ok items
+  | SSet _ _ _ items _ => match items with [] => false | _ => true end && forallb shape_ok items
   | SComp arm _ _ items _ =>
-      Nat.ltb arm (length parse_compound_arms) && match items with [] => false | _ => true end && forallb tree_ok items
-  | SStmt arm _ _ _ _ s p => Nat.ltb arm (length parse_statement_arms) && tree_ok s && tree_ok p
+      Nat.ltb arm (length parse_compound_arms) && match items with [] => false | _ => true end && forallb shape_ok items
+  | SStmt arm _ _ _ _ s p => Nat.ltb arm (length parse_statement_arms) && shape_ok s && shape_ok p
   end.
 
 (* every name of the tree consists of name characters of E *)
